@@ -869,6 +869,17 @@ func detOutputs(seed uint64, count int) []string {
 			dd, _, _ := writeMetrics(dm)
 			out = append(out, fmt.Sprintf("afm-degenerate%d:%x|%v", i, sha256.Sum256(dd), dm.FontBBoxPDF()))
 		}
+		// a file with three CMaps, one of them under the empty name (the smallest name there is)
+		{
+			rr := newRng(r.next())
+			var buf bytes.Buffer
+			for _, nm := range []string{"Beta", "", "Alpha"} {
+				c := randCMap(rr)
+				c.name = nm
+				buf.Write(c.render(rr, "none"))
+			}
+			out = append(out, fmt.Sprintf("cmap-emptyname%d:%x", i, sha256.Sum256([]byte(runInput("cmap", bytes.NewReader(buf.Bytes()))))))
+		}
 		// files with several CMaps
 		rr := newRng(r.next())
 		var buf bytes.Buffer
@@ -1004,6 +1015,9 @@ func suiteDeterminism(o *suiteOut, r *rng, tier string, n int) {
 // ---------------------------------------------------------------- isolation and races (C18)
 
 var hostilePrograms = []string{
+	// writing into the objects that operators hand out (each call must have made a new one)
+	"matrix dup 0 42 put dup 3 /evil put pop 1 0 idiv", "matrix 0 /x put matrix 5 (s) put", "6 array dup 0 /evil put pop 3 string dup 0 88 put pop 2 dict dup /evil 1 put pop",
+	"userdict /evil 1 put currentdict /evil2 2 put 1183615869 internaldict /evil3 3 put FontDirectory /evil4 4 put",
 	// in-place changes of every array, procedure and string that is the value of an entry of a built-in dictionary
 	// (replacing an entry only changes this interpreter's dictionary; writing into a shared value would change all)
 	"/CIDInit /ProcSet findresource { exch pop dup type /arraytype eq { dup length 0 ne { dup 0 /stop load put } if } if pop } forall",
@@ -1096,7 +1110,8 @@ func probeResults() string {
 	}
 	for _, p := range []string{"%%Title: probe\n%%Pages: 3\n%%+ more\n1", "1 2 add", "5 3 sub dup mul", "StandardEncoding 65 get StandardEncoding 32 get", "true false and", "/x 1 def x", "(a) 1 add",
 		"/CIDInit /ProcSet findresource begin 12 dict begin begincmap /CMapName /P def 1 begincodespacerange <00> <ff> endcodespacerange 1 begincidrange <00> <10> 5 endcidrange endcmap CMapName currentdict /CMap defineresource pop end end /P /CMap findresource /CodeMap get type",
-		"FontDirectory length userdict length errordict length systemdict length", "/Fake findfont", "1183615869 internaldict length", "foo", "pop"} {
+		"FontDirectory length userdict length errordict length systemdict length", "/Fake findfont", "matrix", "matrix matrix eq", "matrix dup 0 7 put matrix", "6 array 3 string 2 dict length", "currentdict length",
+		"/CIDInit /ProcSet findresource length", "[ 1 2 ] ( ) << >> length", "1183615869 internaldict length", "foo", "pop"} {
 		res, _, _ := runProgram(100000, false, []byte(p))
 		sb.WriteString(res + "\n")
 	}
